@@ -15,6 +15,9 @@ pub struct Geo {
     pub p: usize,
     pub files: Vec<usize>,
     pub single: bool,
+    /// 0: f0, sub/f1, v1..2/f2.., ..f3; 1: siblings that share a stem and look like scratch names
+    /// (a.part, a.txt, a, a.tmp).
+    pub style: u8,
 }
 
 pub fn geometries(ps: &[usize], max_files: usize) -> Vec<Geo> {
@@ -24,9 +27,11 @@ pub fn geometries(ps: &[usize], max_files: usize) -> Vec<Geo> {
         let max_total = 3 * p + 2;
         fn rec(p: usize, max_len: usize, left: usize, max_files: usize, cur: &mut Vec<usize>, out: &mut Vec<Geo>) {
             if !cur.is_empty() {
-                out.push(Geo { p, files: cur.clone(), single: false });
+                out.push(Geo { p, files: cur.clone(), single: false, style: 0 });
                 if cur.len() == 1 {
-                    out.push(Geo { p, files: cur.clone(), single: true });
+                    out.push(Geo { p, files: cur.clone(), single: true, style: 0 });
+                } else {
+                    out.push(Geo { p, files: cur.clone(), single: false, style: 1 });
                 }
             }
             if cur.len() == max_files {
@@ -59,7 +64,11 @@ pub fn check_geo(rt: &tokio::runtime::Runtime, dir: &Path, g: &Geo) -> Option<(&
     core::wipe_dir(dir);
     // names: plain, in a subdirectory, and (third and fourth file) with runs of dots inside a
     // component, which are ordinary names
-    let names: Vec<String> = (0..g.files.len()).map(|i| match i % 4 { 0 => format!("f{}", i), 1 => format!("sub/f{}", i), 2 => format!("v1..2/f{}..", i), _ => format!("..f{}", i) }).collect();
+    let names: Vec<String> = if g.style == 1 {
+        (0..g.files.len()).map(|i| match i % 4 { 0 => "a.part".to_string(), 1 => "a.txt".to_string(), 2 => "a".to_string(), _ => "a.tmp".to_string() }).collect()
+    } else {
+        (0..g.files.len()).map(|i| match i % 4 { 0 => format!("f{}", i), 1 => format!("sub/f{}", i), 2 => format!("v1..2/f{}..", i), _ => format!("..f{}", i) }).collect()
+    };
     let files: Vec<(&str, usize)> = names.iter().map(|n| n.as_str()).zip(g.files.iter().cloned()).collect();
     let t = Torrent::new("T", g.p, &files, g.single);
     let total = t.total();
@@ -163,10 +172,31 @@ pub fn large_geometries(ps: &[usize], max_cuts: usize) -> Vec<Geo> {
                 files.push(c - prev);
                 prev = *c;
             }
-            out.push(Geo { p, files, single: false });
+            out.push(Geo { p, files, single: false, style: 0 });
         }
     }
     out
+}
+
+/// A single-file torrent whose file is named like the piece file of its own piece `k`
+/// (`<HEX SHA-1>.piece`): output and piece store share the download directory.
+pub fn check_clash(rt: &tokio::runtime::Runtime, dir: &Path, p: usize, total: usize, k: usize) -> Option<(&'static str, String)> {
+    core::wipe_dir(dir);
+    let t0 = Torrent::new("T", p, &[("f", total)], true);
+    let name = t0.piece_file(k);
+    let t = Torrent::new(&name, p, &[("f", total)], true);
+    for i in 0..t.pieces.len() {
+        t.store_piece(dir, i);
+    }
+    let res = match run_extractor(rt, &t) {
+        Ok(r) => r,
+        Err(pn) => return Some(("extractor-panic", format!("single file named {}: {}", name, pn))),
+    };
+    let got = std::fs::read(dir.join(&name)).unwrap_or_default();
+    if got != t.content {
+        return Some(("output-file-named-like-own-piece-file", format!("single-file torrent of {} bytes, piece length {}, whose file is named like the stored file of its piece {} ({}): the extractor said {:?}; the output has {} bytes and {} the content", total, p, k, name, res, got.len(), if got == t.content { "equals" } else { "differs from" })));
+    }
+    None
 }
 
 pub fn run(ctx: &Ctx) -> Outcome {
@@ -196,25 +226,55 @@ pub fn run(ctx: &Ctx) -> Outcome {
             multi_in_piece += 1;
         }
         if let Some((class, summary)) = r {
-            ctx.violation(class, summary.clone(), json!({"p": g.p, "files": g.files, "single": g.single}));
+            ctx.violation(class, summary.clone(), json!({"p": g.p, "files": g.files, "single": g.single, "style": g.style}));
+        }
+    }
+    // output named like one of the torrent's own piece files
+    let mut clashes = 0u64;
+    {
+        let rt = httpfake::runtime();
+        let dir = core::private_cwd("c03", "clash");
+        for (p, total) in ctx.tier.pick(vec![(16usize, 40usize), (5, 13)], vec![(16usize, 40usize), (5, 13), (1, 3), (16384, 40000)]) {
+            for k in 0..(total + p - 1) / p {
+                clashes += 1;
+                if let Some((class, summary)) = check_clash(&rt, &dir, p, total, k) {
+                    ctx.violation(class, summary, json!({"kind": "clash", "p": p, "total": total, "k": k}));
+                }
+            }
         }
     }
     let mut o = Outcome::new("exploration");
-    o.set("evaluations", json!(geos.len()));
+    o.set("name_clash_cases", json!(clashes));
+    o.set("evaluations", json!(geos.len() as u64 + clashes));
     o.set("distinct_nontrivial", json!(multi_in_piece));
-    o.set("rule", json!(format!("every piece length p in {:?} x every list of 1..={} file lengths each in 0..=2p+1 with total <= 3p+2 (single-file form and files-list form for one file); plus realistic piece sizes (16384; thorough also 8192, 8193, 20000, 65536): total 2p+5, files = segments between every choice of <= 2 (thorough 3) cut points from the offsets {{1, 1000, 8191, 8192, 8193, 12000, p-1, p, p+1, p+1000, p+8192, p+8193, 2p, 2p+4}}; each geometry extracted twice: into an empty directory and over pre-existing longer output files; all geometries distinct; non-trivial = at least one file starts strictly inside a piece", ps, ctx.tier.pick(3, 4))));
+    o.set("rule", json!(format!("every piece length p in {:?} x every list of 1..={} file lengths each in 0..=2p+1 with total <= 3p+2 (single-file form and files-list form for one file); plus realistic piece sizes (16384; thorough also 8192, 8193, 20000, 65536): total 2p+5, files = segments between every choice of <= 2 (thorough 3) cut points from the offsets {{1, 1000, 8191, 8192, 8193, 12000, p-1, p, p+1, p+1000, p+8192, p+8193, 2p, 2p+4}}; file names in two styles (f0, sub/f1, v1..2/f2.., ..f3; and siblings sharing a stem that look like scratch names: a.part, a.txt, a, a.tmp); each geometry extracted twice: into an empty directory and over pre-existing longer output files; plus single-file torrents whose file is named like the stored file of one of their own pieces (every piece k of four small geometries); all geometries distinct; non-trivial = at least one file starts strictly inside a piece", ps, ctx.tier.pick(3, 4))));
     let picks = ctx.seeded_pick(geos.len(), 5);
-    o.set("samples", Value::Array(picks.iter().map(|i| json!({"p": geos[*i].p, "files": geos[*i].files, "single": geos[*i].single})).collect()));
+    o.set("samples", Value::Array(picks.iter().map(|i| json!({"p": geos[*i].p, "files": geos[*i].files, "single": geos[*i].single, "style": geos[*i].style})).collect()));
     o.set("exhaustive", json!(true));
     o.assume("content is position-coded (distinct byte per offset within the bound), so misplaced bytes are visible; nothing is claimed beyond the stated geometry bound");
     o
 }
 
 pub fn replay(_ctx: &Ctx, r: &Value) -> i32 {
+    if r["kind"] == "clash" {
+        let rt = httpfake::runtime();
+        let dir = core::private_cwd("c03", "replay");
+        return match check_clash(&rt, &dir, r["p"].as_u64().unwrap() as usize, r["total"].as_u64().unwrap() as usize, r["k"].as_u64().unwrap() as usize) {
+            Some((class, s)) => {
+                println!("VIOLATION property=C03 replay=<this file>\n  class={} {}", class, s);
+                1
+            }
+            None => {
+                println!("holds for this case");
+                0
+            }
+        };
+    }
     let g = Geo {
         p: r["p"].as_u64().unwrap() as usize,
         files: r["files"].as_array().unwrap().iter().map(|x| x.as_u64().unwrap() as usize).collect(),
         single: r["single"].as_bool().unwrap(),
+        style: r["style"].as_u64().unwrap_or(0) as u8,
     };
     let rt = httpfake::runtime();
     let dir = core::private_cwd("c03", "replay");
